@@ -93,6 +93,35 @@ Al->Al : as.polynomial 0.25 0.0 0.5
 Cu-Al : as.morse 1.2 2.5 0.3
 Al-Al : as.bornmayer 900.0 0.3
 """),
+  # multi-range densities that share their first range (same form, same numbers) and differ only later:
+  # parameters are kept concrete so that entries really are textually alike
+  "fs_multirange": dict(fs=True, concrete=True, text=_TAB + """[EAM-Embed]
+Cu : as.polynomial 0.0 -1.5
+Al : as.sqrt -2.0
+
+[EAM-Density]
+Al->Cu : as.polynomial 0.5 1.0 >=2.5 as.zero
+Cu->Al : as.polynomial 0.5 1.0 >=4.0 as.constant 0.25
+Al->Al : sum(as.polynomial 0.5 1.0, >=3.0 as.constant 1.0)
+Cu->Cu : sum(as.polynomial 0.5 1.0, >=1.5 as.constant 2.0)
+
+[Pair]
+Cu-Al : as.polynomial 0.5 1.0 >=2.0 as.zero
+Al-Al : as.polynomial 0.5 1.0 >=5.0 as.zero
+"""),
+  "eam_multirange": dict(concrete=True, text=_TAB + """[EAM-Embed]
+Cu : as.polynomial 0.0 -1.5 >=10.0 as.constant -20.0
+Al : as.polynomial 0.0 -1.5 >=30.0 as.constant -50.0
+
+[EAM-Density]
+Cu : as.polynomial 0.5 1.0 >=2.5 as.zero
+Al : as.polynomial 0.5 1.0 >=4.0 as.constant 0.25
+
+[Pair]
+Cu-Al : as.polynomial 0.5 1.0 >=2.0 as.zero
+Al-Al : as.polynomial 0.5 1.0 >=5.0 as.zero
+Cu-Cu : sum(as.polynomial 0.5 1.0, >=1.5 as.constant 2.0)
+"""),
   "fs_three": dict(fs=True, text=_TAB + """[EAM-Embed]
 Zr : as.polynomial 0.0 -1.0
 Al : as.sqrt -2.0
@@ -248,7 +277,7 @@ def potable_case(model_name, target, nr, nrho, history=()):
     return 0.0
 
   def fn():
-    scp = SymParamParser(cp)
+    scp = SymParamParser(cp, keep=(lambda *a: True) if spec.get("concrete") else None)
     tab = Configuration().read_from_parser(scp)
     if type(tab).__name__ != CLS[target] or tab.nr != nr or tab.nrho != nrho:
       raise Structural("factory", "factory returned %s nr=%r nrho=%r" % (type(tab).__name__, tab.nr, tab.nrho))
